@@ -170,8 +170,9 @@ def drive_process(g, workdir, tid=0, other_seed='12345'):
     try:
         try:
             p, desc = describe_processor(b)
-        except (ValueError, RuntimeError):
-            p = None          # no processor for this description (infeasible design space): graph-level checks only
+        except Exception:
+            p = None          # no processor for this description (infeasible design space, or a construction failure that
+            #                   C01 judges): graph-level checks only
         d2 = pickle.loads(pickle.dumps(b.dsg))
         rec['graph_same'] = bool(b.dsg.is_same(d2))
         rec['graph_fp_eq'] = b.dsg.fingerprint() == d2.fingerprint()
